@@ -1,6 +1,176 @@
-(** Entry points for C20 (stub: replaced by the property's own entry file). *)
-From Coq Require Import ZArith List.
-From GV Require Import Base.Val.
+(** Entry points for C20 (signature collections index like sequences).
+
+    wire formats
+      sig        : list of ints
+      coll       : (kind kspec dtype (sig ...))   kind 0 = (values,bounds)-backed (SignatureArray,
+                   HDF5Signatures; built by the model of SignatureArray.__init__), 1 = SignatureList,
+                   2 = a view SignatureArray([pad] + sigs + [pad])[1:-1]
+      sarg       : () None | (z) int | (0 0) ill-typed
+      idx        : (0 i) | (1 sarg sarg sarg) | (2 bits signed (x ...)) | (3 (b ...)) | (4) | (5)
+      mop        : (0 i sig) set | (1 i) del | (2 i sig) insert | (3 i) pop | (4 sig) append
+      sres       : (0 sig) | (1 (sig ...)) | (2 errcode)
+      gres       : (0 sig) | (1 kind kspec dtype items-or-(2 err) (values) (bounds)) | (2 errcode)
+    ops
+      1  (coll idx)      -> gres   __getitem__, repaired index-array conversion
+      2  (coll idx)      -> gres   __getitem__, index-array conversion as found
+      3  ((sig ...) idx) -> sres   specification: plain list / object array
+      4  (coll (mop ...)) -> ((sig ...) (sres ...))   SignatureList history (kind ignored)
+      5  ((sig ...) (mop ...)) -> ((sig ...) (sres ...))  specification of the same
+      6  (coll coll)     -> (0 b) | (2 errcode)    __eq__
+      7  (k1 (sig ...) k2 (sig ...)) -> b          specification of equality
+      8  coll            -> gres   construct and observe (len via bounds, iteration, values, bounds)
+      9  (n (sarg sarg sarg)) -> (start stop step (positions...)) slice.indices + arange
+      10 (n (sarg sarg sarg)) -> (positions ...)   specification's slice positions *)
+From Coq Require Import ZArith List Bool.
+From GV Require Import Base.Val Spec.C20 Model.C20.
+Import ListNotations.
 Open Scope Z_scope.
 
-Definition dispatch (op : Z) (a : val) : val := vbad.
+Definition perr_code (e : perr) : Z :=
+  match e with IndexError => 1 | TypeError => 2 | ValueError => 3 | NumpyError => 4 | OutOfFuel => 5 end.
+
+Definition d_sig (v : val) : sig := to_Zs v.
+Definition d_sigs (v : val) : list sig := map d_sig (to_list v).
+Definition d_sarg (v : val) : sarg :=
+  match v with
+  | VL [] => SNone
+  | VL [VI z] => SInt z
+  | _ => SBad
+  end.
+Definition d_idx (v : val) : option pidx :=
+  match v with
+  | VL [VI 0; VI i] => Some (PInt i)
+  | VL [VI 1; a; b; s] => Some (PSlice (d_sarg a) (d_sarg b) (d_sarg s))
+  | VL [VI 2; VI bits; sg; xs] => Some (PInts (DT bits (to_bool sg)) (to_Zs xs))
+  | VL [VI 3; m] => Some (PMask (map to_bool (to_list m)))
+  | VL [VI 4] => Some PNoLen
+  | VL [VI 5] => Some PBadArr
+  | _ => None
+  end.
+Definition d_coll (v : val) : option (res coll) :=
+  match v with
+  | VL [VI kind; VI k; VI d; sigs] =>
+      if kind =? 1 then Some (Ok (CList (mk_siglist (d_sigs sigs) k d)))
+      else if kind =? 2 then
+        (* a view: SignatureArray([pad] + sigs + [pad])[1:-1] (contiguous fast path) *)
+        Some (match sa_of_list k d ([[98; 99]] ++ d_sigs sigs ++ [[97]]) with
+              | Ok sa => match sa_getitem_slice sa (Some 1) (Some (-1)) None with
+                         | Ok v => Ok (CArr v)
+                         | Err e => Err e
+                         end
+              | Err e => Err e
+              end)
+      else Some (match sa_of_list k d (d_sigs sigs) with Ok sa => Ok (CArr sa) | Err e => Err e end)
+  | _ => None
+  end.
+Definition d_mop (v : val) : option mop :=
+  match v with
+  | VL [VI 0; VI i; x] => Some (MSet i (d_sig x))
+  | VL [VI 1; VI i] => Some (MDel i)
+  | VL [VI 2; VI i; x] => Some (MIns i (d_sig x))
+  | VL [VI 3; VI i] => Some (MPop i)
+  | VL [VI 4; x] => Some (MApp (d_sig x))
+  | _ => None
+  end.
+Fixpoint d_mops (l : list val) : option (list mop) :=
+  match l with
+  | [] => Some []
+  | v :: r => match d_mop v, d_mops r with Some o, Some os => Some (o :: os) | _, _ => None end
+  end.
+
+Definition e_Zs (l : list Z) : val := VL (map VI l).
+Definition e_sigs (l : list sig) : val := VL (map e_Zs l).
+Definition e_err (e : perr) : val := VL [VI 2; VI (perr_code e)].
+Definition e_sres (r : sres) : val :=
+  match r with
+  | RSig s => VL [VI 0; e_Zs s]
+  | RColl l => VL [VI 1; e_sigs l]
+  | RErr e => e_err e
+  end.
+Definition e_gres (fx : bool) (g : gres) : val :=
+  match g with
+  | GSig s => VL [VI 0; e_Zs s]
+  | GErr e => e_err e
+  | GColl c =>
+      let items := match coll_iter fx c with Ok l => e_sigs l | Err e => e_err e end in
+      match c with
+      | CArr sa => VL [VI 1; VI 0; VI (sa_kspec sa); VI (sa_dtype sa); items; e_Zs (sa_values sa); e_Zs (sa_bounds sa)]
+      | CList sl => VL [VI 1; VI 1; VI (sl_kspec sl); VI (sl_dtype sl); items; VL []; VL []]
+      end
+  end.
+
+Definition with_coll (v : val) (f : coll -> val) : val :=
+  match d_coll v with
+  | Some (Ok c) => f c
+  | Some (Err e) => e_err e
+  | None => vbad
+  end.
+
+Definition do_getitem (fx : bool) (a : val) : val :=
+  match a with
+  | VL [c; i] => match d_idx i with
+                 | Some idx => with_coll c (fun c => e_gres fx (getitem fx c idx))
+                 | None => vbad
+                 end
+  | _ => vbad
+  end.
+
+Definition e_hist (p : list sig * list sres) : val := VL [e_sigs (fst p); VL (map e_sres (snd p))].
+
+Definition d_sargs (v : val) : option (sarg * sarg * sarg) :=
+  match v with VL [a; b; s] => Some (d_sarg a, d_sarg b, d_sarg s) | _ => None end.
+
+Definition dispatch (op : Z) (a : val) : val :=
+  match op with
+  | 1 => do_getitem true a
+  | 2 => do_getitem false a
+  | 3 => match a with
+         | VL [l; i] => match d_idx i with Some idx => e_sres (list_getitem (d_sigs l) idx) | None => vbad end
+         | _ => vbad
+         end
+  | 4 => match a with
+         | VL [VL [_; VI k; VI d; sigs]; VL ops] =>
+             match d_mops ops with
+             | Some os => let '(sl, outs) := sl_history (mk_siglist (d_sigs sigs) k d) os in
+                          e_hist (sl_list sl, outs)
+             | None => vbad
+             end
+         | _ => vbad
+         end
+  | 5 => match a with
+         | VL [sigs; VL ops] =>
+             match d_mops ops with Some os => e_hist (spec_history (d_sigs sigs) os) | None => vbad end
+         | _ => vbad
+         end
+  | 6 => match a with
+         | VL [c1; c2] =>
+             with_coll c1 (fun x => with_coll c2 (fun y =>
+               match coll_eq true x y with Ok b => VL [VI 0; vbool b] | Err e => e_err e end))
+         | _ => vbad
+         end
+  | 7 => match a with
+         | VL [VI k1; l1; VI k2; l2] => vbool (spec_eq k1 (d_sigs l1) k2 (d_sigs l2))
+         | _ => vbad
+         end
+  | 8 => with_coll a (fun c => e_gres true (GColl c))
+  | 9 => match a with
+         | VL [VI n; sl] =>
+             match d_sargs sl with
+             | Some (x, y, z) =>
+                 let '(start, stop, step) := slice_indices n (sarg_opt x) (sarg_opt y) (sarg_opt z) in
+                 VL [VI start; VI stop; VI step; e_Zs (arange start stop step)]
+             | None => vbad
+             end
+         | _ => vbad
+         end
+  | 10 => match a with
+          | VL [VI n; sl] =>
+              match d_sargs sl with
+              | Some (x, y, SInt z) => e_Zs (spec_slice_positions n (sarg_opt x) (sarg_opt y) z)
+              | Some (x, y, _) => e_Zs (spec_slice_positions n (sarg_opt x) (sarg_opt y) 1)
+              | None => vbad
+              end
+          | _ => vbad
+          end
+  | _ => vbad
+  end.
